@@ -167,6 +167,41 @@ func cmdCheck(args []string) {
 	if rerr != nil {
 		fmt.Fprintln(os.Stderr, "replay error:", rerr)
 	}
+	// Go iterates maps in random order: a counterexample (or reach witness) that depends on the order in which the
+	// real storage hands out messages reproduces only in some runs. Cases that did not reproduce are replayed again
+	// (up to 6 more times); a single reproducing run confirms the violation against the real code.
+	reproduced := func(c ReplayCase, r ReplayResult, ok bool) bool {
+		if !ok {
+			return false
+		}
+		switch {
+		case strings.HasPrefix(c.Expect, "reach:"):
+			return contains(r.Reached, c.Label)
+		case strings.HasSuffix(c.Label, ".uncaught_panic"):
+			return r.Status == "panic"
+		case strings.HasSuffix(c.Label, ".would_block"):
+			return r.Status == "timeout-or-blocked"
+		}
+		return contains(r.Failed, c.Label)
+	}
+	for attempt := 0; attempt < 6; attempt++ {
+		var again []ReplayCase
+		for _, c := range cases {
+			r, ok := results[c.Name]
+			if !reproduced(c, r, ok) {
+				again = append(again, c)
+			}
+		}
+		if len(again) == 0 {
+			break
+		}
+		more, _ := runReplays(*repo, harnessDir, again)
+		for _, c := range again {
+			if r, ok := more[c.Name]; ok && reproduced(c, r, true) {
+				results[c.Name] = r
+			}
+		}
+	}
 
 	known := loadKnown(filepath.Join(*verif, "known_findings.json"))
 	replayDir := filepath.Join(*verif, "replays", id)
